@@ -28,14 +28,14 @@ def cgmy_params(draw, branches=None, y_max=1.9):
         y = 0.0
     elif br == "0<y<1":
         y = draw(_f(0.05, 0.95))
-        if draw(st.integers(0, 9)) == 0:  # close to, but not at, the special index 1
-            y = draw(st.sampled_from([0.999992, 0.999, 0.99]))
+        if draw(st.integers(0, 5)) == 0:  # close to, but not at, the special index 1
+            y = draw(st.sampled_from([0.999992, 0.999992, 0.999, 0.99]))
     elif br == "y=1":
         y = 1.0
     else:
         y = draw(_f(1.05, y_max))
-        if draw(st.integers(0, 9)) == 0:
-            y = draw(st.sampled_from([1.000008, 1.001, 1.01]))
+        if draw(st.integers(0, 5)) == 0:
+            y = draw(st.sampled_from([1.000008, 1.000008, 1.001, 1.01]))
     return {"c": draw(_f(0.01, 5.0)), "g": draw(_f(1.5, 40.0)), "m": draw(_f(1.5, 40.0)), "y": y}
 
 
@@ -47,6 +47,10 @@ def hem_params(draw):
 
 @st.composite
 def merton_params(draw):
+    if draw(st.integers(0, 7)) == 0:
+        # many small jumps (high activity, jump sizes of a few tenths of a percent)
+        return {"sigma": draw(st.one_of(st.just(0.0), _f(0.0, 0.3))), "mu_j": draw(_f(0.0, 0.01)),
+                "sigma_j": draw(_f(0.001, 0.004)), "intensity": draw(_f(100.0, 10000.0))}
     return {"sigma": draw(st.one_of(st.just(0.0), _f(0.0, 0.5))), "mu_j": draw(st.one_of(st.just(0.0), _f(0.0, 0.3))),
             "sigma_j": draw(_f(0.01, 0.4)), "intensity": draw(_f(0.1, 20.0))}
 
